@@ -50,9 +50,6 @@ func zzLexAll(data []byte) *zzLexRun {
 }
 
 func zzLexBound() int {
-	if zz.Tier() == 1 {
-		return 4
-	}
 	return 3
 }
 
@@ -74,7 +71,11 @@ var zzPrefixes = []string{
 // zzTemplate returns a concrete prefix followed by a few arbitrary bytes.
 func zzTemplate() []byte {
 	p := zzPrefixes[zz.Choice(len(zzPrefixes))]
-	n := zz.IntRange(0, 2)
+	k := 2
+	if zz.Tier() == 1 {
+		k = 3
+	}
+	n := zz.IntRange(0, k)
 	return append([]byte(p), zz.Bytes(n)...)
 }
 
